@@ -29,9 +29,28 @@ type caseC07 struct {
 
 func genC07(t *rapid.T, _ *evid.Rec) caseC07 {
 	var text string
-	switch rapid.IntRange(0, 9).Draw(t, "textClass") {
-	case 0:
+	switch rapid.IntRange(0, 30).Draw(t, "textClass") {
+	case 0, 1, 2:
 		text = gen.Soup(t, "soup")
+	case 3:
+		// hundreds of small records, most of them faulty, with stretches of valid ones: many
+		// errors inside worker-finalised blocks of several chunks
+		n := rapid.IntRange(150, 400).Draw(t, "manyN")
+		validFrom := rapid.IntRange(0, n).Draw(t, "validFrom")
+		validLen := rapid.IntRange(10, 120).Draw(t, "validLen")
+		var sb strings.Builder
+		for i := 0; i < n; i++ {
+			d := model.DateOfDays(model.DaysFromCivil(2000, 1, 1)+i, false)
+			if i >= validFrom && i < validFrom+validLen {
+				sb.WriteString(d.Lit() + "\n\t1h\n\n")
+			} else {
+				sb.WriteString(d.Lit() + "\n\tfoo\n\n")
+			}
+		}
+		text = sb.String()
+		c := caseC07{Text: model.Text(text), Perm: rapid.IntRange(0, 1<<20).Draw(t, "perm")}
+		c.Workers = []int{2, 3, 4, rapid.IntRange(5, 9).Draw(t, "manyWorkers")}
+		return c
 	default:
 		d := gen.Doc(t, gen.Opts{AllowMany: true, Controls: true, InvalidUTF8: true, KeepTrailingCR: true})
 		l := gen.Layout(t, len(d.Records))
@@ -201,6 +220,9 @@ func checkC07(c caseC07) (Outcome, error) {
 			add(n)
 		}
 	}
+	for _, n := range aimedWorkerCounts(text, 8) {
+		add(n)
+	}
 	defer clearSchedule()
 	nontrivial := false
 	for _, n := range counts {
@@ -334,4 +356,62 @@ func sumOverflows(records []klog.Record) bool {
 		}
 	}
 	return false
+}
+
+// aimedWorkerCounts returns worker counts for which a chunk boundary falls on a position that is
+// interesting for the merge logic: directly after the line break of a blank line inside a run of
+// blank lines, between CR and LF, or inside a multi-byte character. For a position p and a chunk
+// size s dividing p, n = ceil(L/s) workers cut the text at p provided ceil(L/n) == s.
+func aimedWorkerCounts(text string, max int) []int {
+	L := len(text)
+	var positions []int
+	prevBlank := false
+	lineStart := 0
+	for i := 0; i < L; i++ {
+		if text[i] == '\n' {
+			line := strings.TrimSuffix(text[lineStart:i], "\r")
+			blank := model.IsBlankST(line)
+			if blank && (prevBlank || lineStart == 0) {
+				positions = append(positions, lineStart) // boundary between two blank lines
+			}
+			if blank {
+				positions = append(positions, i+1)
+			}
+			if i > 0 && text[i-1] == '\r' {
+				positions = append(positions, i) // between CR and LF
+			}
+			prevBlank = blank
+			lineStart = i + 1
+		} else if text[i] >= 0x80 && !utf8.RuneStart(text[i]) {
+			positions = append(positions, i) // inside a code point
+		}
+	}
+	var out []int
+	seen := map[int]bool{}
+	for k, p := range positions {
+		if len(out) >= max {
+			break
+		}
+		if p <= 0 || p >= L {
+			continue
+		}
+		// try a few divisors of p, preferring large chunks (few workers)
+		tried := 0
+		for s := p; s >= 1 && tried < 3; s-- {
+			if p%s != 0 {
+				continue
+			}
+			n := (L + s - 1) / s
+			if n < 2 || n > 64 || (L+n-1)/n != s {
+				continue
+			}
+			tried++
+			if !seen[n] && (k+s)%2 == 0 || tried == 1 && !seen[n] {
+				seen[n] = true
+				out = append(out, n)
+				break
+			}
+		}
+	}
+	return out
 }
